@@ -15,9 +15,28 @@ type Effects struct {
 	all      bool
 	allocs   bool
 	prefixes map[string]bool
+	// soft: the only writes to this component initialise objects the writer allocated itself (stores
+	// through the result of new in the same function): objects that existed before a call keep their
+	// contents. Used only where a contract asks for it (fresh-frames); everywhere else a soft
+	// component is havoced like any other.
+	soft map[string]bool
 }
 
-func newEffects() *Effects { return &Effects{prefixes: map[string]bool{}} }
+func newEffects() *Effects { return &Effects{prefixes: map[string]bool{}, soft: map[string]bool{}} }
+
+// write records a write that may reach objects the caller knows.
+func (e *Effects) write(p string) {
+	e.prefixes[p] = true
+	delete(e.soft, p)
+}
+
+// initWrite records a write into an object allocated by the writer.
+func (e *Effects) initWrite(p string) {
+	if !e.prefixes[p] {
+		e.soft[p] = true
+	}
+	e.prefixes[p] = true
+}
 
 func (e *Effects) add(o *Effects) {
 	if o.all {
@@ -27,8 +46,28 @@ func (e *Effects) add(o *Effects) {
 		e.allocs = true
 	}
 	for p := range o.prefixes {
-		e.prefixes[p] = true
+		if o.soft[p] {
+			e.initWrite(p)
+		} else {
+			e.write(p)
+		}
 	}
+}
+
+// rootedAtNew: the address is a field or element of an object allocated by this very instruction
+// sequence (new T, &T{...}, the backing array of a slice literal), reached without a load.
+func rootedAtNew(addr ssa.Value) bool {
+	switch a := addr.(type) {
+	case *ssa.Alloc:
+		return a.Heap
+	case *ssa.FieldAddr:
+		return rootedAtNew(a.X)
+	case *ssa.IndexAddr:
+		if _, ok := a.X.Type().Underlying().(*types.Pointer); ok {
+			return rootedAtNew(a.X)
+		}
+	}
+	return false
 }
 
 // addrPrefix computes the heap key prefix written by a store through addr
@@ -111,9 +150,13 @@ func (w *World) instrEffects(in ssa.Instruction, eff *Effects, cells map[*ssa.Al
 			}
 			return
 		}
-		eff.prefixes[p] = true
+		if rootedAtNew(i.Addr) {
+			eff.initWrite(p)
+		} else {
+			eff.write(p)
+		}
 	case *ssa.MapUpdate:
-		eff.prefixes["M:"+typeKey(i.Map.Type())] = true
+		eff.write("M:" + typeKey(i.Map.Type()))
 	case *ssa.Alloc:
 		if i.Heap {
 			eff.allocs = true
@@ -672,6 +715,11 @@ func (x *Exec) callFunc(st *State, fn *ssa.Function, binds []Value, call *ssa.Ca
 	if fc != nil && fc.Inline && x.depth < 4 && len(fn.Blocks) > 0 {
 		return x.inline(st, fn, binds, args, resType, pos)
 	}
+	// a bound method value (p.m used as a function): the synthetic wrapper only calls the method on
+	// the receiver it captured, so it is executed in place and the method's own contract applies
+	if fc == nil && fn.Synthetic != "" && strings.HasSuffix(fn.Name(), "$bound") && len(fn.Blocks) == 1 && len(binds) == 1 && x.depth < 6 {
+		return x.inline(st, fn, binds, args, resType, pos)
+	}
 	// model functions built into the engine
 	if v, ok := x.intrinsic(st, fn, args, resType, pos); ok {
 		return v
@@ -944,7 +992,7 @@ func (x *Exec) applyContract(st *State, fc *FuncContract, names []string, tys []
 			if eff.all {
 				x.havocForUnknown(st)
 			} else {
-				x.applyEffects(st, eff)
+				x.applyCallEffects(st, eff)
 				// pointer arguments to local cells may be written
 				for k, a := range args {
 					if p, ok := a.(PtrV); ok && p.Kind == PLocal {
